@@ -100,7 +100,7 @@ def execute(c, **runkw):
         if c.get("all_defaults"):
             s.run(**runkw)
         else:
-            s.run(n_total=c["n_total"], progress=bool(c.get("progress")), **runkw)
+            s.run(n_total=c["n_total"], progress=prog(c), **runkw)
         return s, t, like, pt
     import os, shutil, tempfile
     from tvf.env import OUT
@@ -110,11 +110,11 @@ def execute(c, **runkw):
     try:
         c1 = dict(c, output_dir=tmp, output_label="cw")
         s1, t, like, pt = build(c1)
-        s1.run(n_total=c["n_total"], progress=bool(c.get("progress")), save_every=1)
+        s1.run(n_total=c["n_total"], progress=prog(c), save_every=1)
         files = sorted((f for f in os.listdir(tmp) if f.startswith("cw_") and "final" not in f), key=lambda f: int(f.split("_")[1].split(".")[0]))
         pick = os.path.join(tmp, files[len(files) // 2])
         s2, _, _, _ = build(dict(c1, N=int(c["continue_with"])), like=like)
-        s2.run(n_total=c["n_total"], progress=bool(c.get("progress")), resume_state_path=pick, **runkw)
+        s2.run(n_total=c["n_total"], progress=prog(c), resume_state_path=pick, **runkw)
         return s2, t, like, pt
     finally:
         shutil.rmtree(tmp, ignore_errors=True)
